@@ -283,16 +283,25 @@ def check_debugger(rec, idx, of):
     for evalex, pin_on, pin_logging in itertools.product([True, False], [True, False], [True, False]):
         # (pin_logging only says whether the PIN is printed at start-up: no gate depends on it)
         app = DebuggedApplication(inner, evalex=evalex, pin_security=pin_on, pin_logging=pin_logging)
+        PIN = "111-222-333"
         if pin_on:
+            pin_at_start = app.pin  # (read before the cookie name: computing that name also fills in a PIN)
             cname = app.pin_cookie_name
-            app.pin = "111-222-333"
+            if pin_at_start is None:
+                rec.violation("C20/pin-security-on-without-a-pin", f"DebuggedApplication(evalex={evalex}, pin_security=True, pin_logging={pin_logging}).pin is None: every request passes the PIN gate",
+                              {"part": "debugger", "evalex": evalex, "pin_on": pin_on, "pin_logging": pin_logging}, monitor="gate")
+                continue
+            if pin_logging:
+                app.pin = PIN  # the application's own PIN through the setter
+            else:
+                PIN = app.pin  # the PIN the debugger made up for itself
         else:
             cname = "__wzdX"
         spy = SpyFrame()
         app.frames[12345] = spy
-        good = f"{int(ft.now)}|{hash_pin('111-222-333')}"
-        COOKIES = {"valid": good, "expired": f"{int(ft.now - dbg.PIN_TIME - 10)}|{hash_pin('111-222-333')}", "wronghash": f"{int(ft.now)}|deadbeef0000",
-                   "malformed": f"abc|{hash_pin('111-222-333')}", "nopipe": "justtext", "absent": None, "future": f"{int(ft.now + 10**6)}|{hash_pin('000')}"}
+        good = f"{int(ft.now)}|{hash_pin(PIN)}"
+        COOKIES = {"valid": good, "expired": f"{int(ft.now - dbg.PIN_TIME - 10)}|{hash_pin(PIN)}", "wronghash": f"{int(ft.now)}|deadbeef0000",
+                   "malformed": f"abc|{hash_pin(PIN)}", "nopipe": "justtext", "absent": None, "future": f"{int(ft.now + 10**6)}|{hash_pin('000')}"}
         for cmd, secret, host, ck, frm in itertools.product(["eval", "console", "pinauth", "printpin", "resource", "none"], ["right", "wrong", "absent"], HOSTS, COOKIES, ["known", "unknown", "nonint"]):
             n += 1
             if n % of != idx:
